@@ -531,8 +531,17 @@ DRV_OP(mk) {
             if (p.kind == 'B') e.o = p.b.createSource(name, type); else e.o = p.o.createSource(name, type);
             id = e.o.id(); created = e.o.createdAt();
         } else if (kind == "A") {
+            // mk $x A <block> <name> <type> <dtype> [n] d|s : the templated createDataArray(name, type, data, dtype) with a vector of
+            // n doubles / n strings (shape and, for dtype Nothing, element type are inferred from the data)
+            if (a.size() == 9) {
+                size_t n = nd(a[7]).size() == 1 ? (size_t) nd(a[7])[0] : throw ProtoError("mk A with data: 1-d only");
+                if (a[8] == "d") { std::vector<double> v(n, 1.5); e.a = slot(par).b.createDataArray(name, type, v, dtOf(a[6])); }
+                else if (a[8] == "s") { std::vector<std::string> v(n, "txt"); e.a = slot(par).b.createDataArray(name, type, v, dtOf(a[6])); }
+                else throw ProtoError("mk A data class");
+            } else {
             if (a.size() != 8) throw ProtoError("mk A arity");
             e.a = slot(par).b.createDataArray(name, type, dtOf(a[6]), nd(a[7]));
+            }
             id = e.a.id(); created = e.a.createdAt();
         } else if (kind == "D") {
             if (a.size() != 7) throw ProtoError("mk D arity");
